@@ -31,13 +31,15 @@ pub struct Counted {
     pub id: Option<usize>,
 }
 
+/// element-wise with right-aligned broadcasting of the shorter operand (index modulo its length)
 fn ew(x: &[&Array], f: fn(Float, Float) -> Float) -> Array {
-    let n = x[0].values().len();
+    let (n0, n1) = (x[0].values().len(), x[1].values().len());
+    let (n, d) = if n0 >= n1 { (n0, x[0].dimensions().to_vec()) } else { (n1, x[1].dimensions().to_vec()) };
     let mut v = Vec::with_capacity(n);
     for i in 0..n {
-        v.push(f(x[0].values()[i], x[1].values()[i]));
+        v.push(f(x[0].values()[i % n0], x[1].values()[i % n1]));
     }
-    Array::from((x[0].dimensions().to_vec(), v))
+    Array::from((d, v))
 }
 
 impl Counted {
@@ -107,7 +109,14 @@ impl Alg for Counted {
     fn sigmoid(&self) -> Self { unimplemented!() }
     fn softmax(&self) -> Self { unimplemented!() }
     fn axpy(_: Float, _: &Self, _: &Self) -> Self { unimplemented!() }
-    fn detach(self) -> Self { unimplemented!() }
+    fn detach(self) -> Self {
+        // a detached handle onto the same node (the stop-gradient pattern)
+        Counted {
+            a: self.a.clone().untracked(),
+            reg: self.reg,
+            id: self.id,
+        }
+    }
     fn keep(self) -> Self { self }
 }
 
@@ -161,6 +170,7 @@ pub fn once<P: Program, S: Source>(s: &mut S, p: &P, leaves: &[Leaf]) {
         if let Some(g) = g.as_ref() {
             let rec = reg.adjoint.borrow();
             chk!(vals_eq(g.values(), &rec[id]), "[c11:complete] the derivative function received an incomplete adjoint");
+            chk!(dims_eq(g.dimensions(), nd.a.dimensions()), "[c11:adjoint-dims] the adjoint handed to a node does not have the node's dimensions");
         }
         let _ = k;
     }
